@@ -70,7 +70,13 @@ def check_rmi(ctx, rep, cl):
         rep.ob(cl + ".pattern-loop", fn.name, inner.iter == gvar, "inner loop iterates %s; expected every pattern of the group" % show(inner.iter), W(fn, inner.node))
         rx_t = ("loopvar", inner.uid, inner.iter, (0,))
         idx_t = ("loopvar", inner.uid, inner.iter, (1,))
-        cur = ("carried", linevar, inner.uid) if linevar else None
+        # the working line inside the pattern loop: the carried variable that starts as the outer loop's working line
+        inner_line = None
+        for n2, (pre2, posts2) in inner.carried.items():
+            if linevar and pre2 == ("carried", linevar, outer.uid):
+                inner_line = n2
+        cur = ("carried", inner_line, inner.uid) if inner_line else None
+        rep.ob(cl + ".inner-working-line", fn.name, inner_line is not None, "the pattern loop works on the outer loop's current line (%s)" % {n2: show(v[0])[:50] for n2, v in inner.carried.items()}, W(fn, inner.node), nontrivial=False)
         search = ("call", ("attr", rx_t, "search"), (cur,), ())
         kinds = {"skip": 0, "scrub": 0, "replace": 0}
         flagvar = None
@@ -80,7 +86,7 @@ def check_rmi(ctx, rep, cl):
             isnone = bp.truth(("compare", ("is",), (search, ("const", None))))
             if isnone is True:
                 kinds["skip"] += 1
-                rep.ob(cl + ".no-match-no-change", fn.name, not subs and bp.env.get(linevar) == cur, "a pattern that does not match leaves the line unchanged", wb, nontrivial=False)
+                rep.ob(cl + ".no-match-no-change", fn.name, not subs and bp.env.get(inner_line) == cur, "a pattern that does not match leaves the line unchanged", wb, nontrivial=False)
                 continue
             if isnone is None:
                 rep.fail(cl + ".match-test", fn.name, "inner path does not test `pattern.search(line) is None`: %s" % bp.describe()[:160], wb)
@@ -91,10 +97,11 @@ def check_rmi(ctx, rep, cl):
                 continue
             s = subs[0]
             wb = W(fn, s.node)
-            ok_recv = s.a[1][1] == rx_t and len(s.a[2]) == 2 and s.a[2][1] == cur and not s.a[3] and s.a[1][2] == "sub"
+            ns = M.norm_sub(s.a)
+            ok_recv = ns is not None and ns[0] == rx_t and ns[2] == cur and ns[3] is None
             rep.ob(cl + ".substitution-target", fn.name, ok_recv, "substitution %s; expected <the pattern that matched>.sub(<replacement>, <current line>) over all matches (no count)" % show(s.a)[:200], wb, key=cl + ".substitution-target|replace_matching_item")
-            rep.ob(cl + ".substitution-assigned", fn.name, bp.env.get(linevar) == s.a, "the substituted text becomes the working line", wb, nontrivial=False)
-            repl = s.a[2][0] if s.a[2] else None
+            rep.ob(cl + ".substitution-assigned", fn.name, bp.env.get(inner_line) == s.a, "the substituted text becomes the working line", wb, nontrivial=False)
+            repl = ns[1] if ns is not None else (s.a[2][0] if s.a[2] else None)
             if scrub is True:
                 kinds["scrub"] += 1
                 okc = False
